@@ -370,7 +370,8 @@ def register_pandas():
 
     @normalize_token.register(pd.api.extensions.ExtensionDtype)
     def normalize_period_dtype(dtype):
-        return normalize_token(dtype.name)
+        # tagged: the bare name would be the token of the string itself
+        return type(dtype).__name__, normalize_token(dtype.name)
 
     @normalize_token.register(type(pd.NA))
     def normalize_na(na):
@@ -378,7 +379,7 @@ def register_pandas():
 
     @normalize_token.register(pd.offsets.BaseOffset)
     def normalize_offset(offset):
-        return offset.freqstr
+        return type(offset).__name__, offset.freqstr
 
 
 @normalize_token.register_lazy("numba")
@@ -499,7 +500,8 @@ def register_numpy():
             # ``str`` of a structured or sub-array dtype is only '|V<itemsize>':
             # field names, field types and offsets would be lost
             return "np.dtype", repr(dtype)
-        return dtype.str
+        # tagged: a bare ``dtype.str`` is also the token of that string
+        return "np.dtype", dtype.str
 
 
 def _tokenize_deterministic(*args, **kwargs) -> str:
